@@ -24,13 +24,14 @@ use std::sync::atomic::{AtomicBool, Ordering};
 use serde_json::json;
 use vcore::Ctx;
 
-use gen::{Base, FlipBlock, HistoryBlock};
+use gen::{Base, FlipBlock, HistoryBlock, WarmBlock, WarmShape};
 use scen::Scenario;
 
 enum Block {
     Flip(FlipBlock),
-    List(Vec<Scenario>),
+    List(std::sync::Arc<Vec<Scenario>>),
     History(HistoryBlock),
+    Warm(WarmBlock),
 }
 
 impl Block {
@@ -39,6 +40,7 @@ impl Block {
             Block::Flip(f) => f.count(),
             Block::List(l) => l.len() as u64,
             Block::History(h) => h.count(),
+            Block::Warm(w) => w.count(),
         }
     }
 }
@@ -78,14 +80,27 @@ fn main() {
          and all op sequences of length 4 (quick) / 5 (thorough) over {validate x 4 worlds, validate via a clone of the \
          handle, advance 1 s, jump to t0+99/100/101/301/1001} on one shared handle; the same op sequences one step shorter for 13 handle CONFIGURATIONS \
          (positive / negative validation-cache TTL ranges from {0..=0, 5..=10, 200..=400, 0..=1, 1000..=1000}, both, cache size 1) \
-         with signature lifetimes (100 s, 1000 s) below and above the configured minimum. Oracle: only-if acceptance predicate \
+         with signature lifetimes (100 s, 1000 s) below and above the configured minimum (5 worlds: honest, signature bit flipped, longer-lived RRSIG, received TTL 50, \
+         honest plus a forged record served twice). MULTISET family (answer section as a multiset): a forged record / the class-CH twin of a genuine \
+         record added 1..4 times at every position (side by side and apart), a genuine record duplicated 1..3 times / removed / replaced by X, X X, X X X X, \
+         X Y, X X Y Y, its class-CH twin (once, twice), two different forged records in five patterns, all genuine records replaced, the RRSIG duplicated / \
+         removed / replaced by / accompanied by {expired, future, broken, sibling-zone, other-key, other-tag} ones, every order of the records x RRSIG \
+         position, the signed RRset once more under a sibling owner / in class CH (two RRsets in one response), received TTLs. WARM family: EVERY content \
+         mutation P of the field / injection / key-owner / several-RRSIG / multiset families is presented to a handle with a history - \
+         honest ; P, honest-with-every-record-twice ; P, P ; honest ; P, honest ; P ; P, honest ; P ; honest, honest ; P via a clone \
+         [quick: multiset - first three shapes for every base, all for the core bases; other families - honest ; P for every base (several-RRSIG: core bases)] \
+         and the multiset family also under the 13 handle configurations [quick: 4 Ed25519 bases]. Oracle: only-if acceptance predicate \
          (12 clauses, refpred.rs), applied PER RECORD to the RRset (same owner, CLASS, type) the returned record is a member of, on the mutated bytes with vref::sigref + ring at the time of EACH validate; TTL of Secure \
-         records <= expiration - now. distinct_nontrivial = cases where the reference rejects with exactly ONE failing \
+         records <= expiration - now. A verdict for answer content (records + RRSIGs) that was returned Secure earlier in the same history may rest on the \
+         DNSKEY response presented THEN (judged at the time of THIS validate). Differential side: every validate step after the first is also given to a \
+         FRESH handle (same configuration, same time); Secure only on the warm handle while the reference cannot decide is a violation, the other \
+         differences are logged. distinct_nontrivial = cases where the reference rejects with exactly ONE failing \
          clause (they tell the reference from the predicate without that clause).",
     );
     ctx.assume("ring's Ed25519/ECDSA/RSA verification and vref::sigref (RFC 4034 6.2/6.3, 4035 5.3.2 signed data, appendix B key tag, RFC 1982) are the reference");
     ctx.assume("the 'signer name encloses the owner' requirement is not part of C06's statement: sibling-signer cases are enumerated, logged as obs and judged under C07");
     ctx.assume("RFC 1982 comparisons at distance exactly 2^31 are undefined: the reference accepts both answers there");
+    ctx.assume("a cached Secure verdict stays allowed while both signature windows hold even if the upstream meanwhile serves another DNSKEY RRset (the validation cache is keyed by RRset + RRSIGs, not by the keys): ordinary caching, logged as obs");
     ctx.assume("TTL clauses judged: remaining signature lifetime only (statement); TTL above original/received TTL is logged as obs");
 
     // ---- bases
@@ -131,12 +146,47 @@ fn main() {
         if thorough || core {
             v.push(Block::Flip(FlipBlock::new(b)));
         }
-        v.push(Block::List(gen::field_replacements(b)));
-        v.push(Block::List(gen::injections(b)));
-        v.push(Block::List(gen::key_owners(b)));
-        v.push(Block::List(gen::multi_sigs(b, thorough, thorough || b.name.contains("ED25519"))));
+        use std::sync::Arc;
+        let field = Arc::new(gen::field_replacements(b));
+        let inject = Arc::new(gen::injections(b));
+        let kown = Arc::new(gen::key_owners(b));
+        let msig = Arc::new(gen::multi_sigs(b, thorough, thorough || b.name.contains("ED25519")));
+        let mset = Arc::new(gen::multisets(b));
+        for l in [&field, &inject, &kown, &msig, &mset] {
+            v.push(Block::List(l.clone()));
+        }
         if thorough || core {
-            v.push(Block::List(gen::clock_grid(b, thorough)));
+            v.push(Block::List(Arc::new(gen::clock_grid(b, thorough))));
+        }
+        // WARM presentations: every content mutation P of the cold families presented to a handle
+        // that has validated the honest world before. Multiset family: every shape; the other
+        // families: honest ; P (quick), every shape (thorough).
+        let dflt = vec![scen::HandleCfg::default()];
+        let all_shapes = vec![WarmShape::HP, WarmShape::DP, WarmShape::PHP, WarmShape::HPP, WarmShape::HPH, WarmShape::HPclone];
+        // multiset family: quick - honest ; P, honest-twice ; P and P ; honest ; P for every base, the
+        // other shapes for the core bases; thorough - every shape for every base
+        let shapes = if thorough || core { all_shapes.clone() } else { vec![WarmShape::HP, WarmShape::DP, WarmShape::PHP] };
+        v.push(Block::Warm(WarmBlock::new(b, mset.clone(), shapes, dflt.clone())));
+        // the other content families: quick - honest ; P for every base (several-RRSIG family: core
+        // bases), plus honest-twice ; P for the core bases; thorough - every shape for every base
+        for (l, every_base) in [(&field, true), (&inject, true), (&kown, true), (&msig, false)] {
+            let shapes = if thorough {
+                // (the several-RRSIG family is the largest one: three shapes)
+                if every_base { all_shapes.clone() } else { vec![WarmShape::HP, WarmShape::DP, WarmShape::PHP] }
+            } else if core {
+                vec![WarmShape::HP, WarmShape::DP]
+            } else if every_base {
+                vec![WarmShape::HP]
+            } else {
+                continue;
+            };
+            v.push(Block::Warm(WarmBlock::new(b, l.clone(), shapes, dflt.clone())));
+        }
+        // ... crossed with the 13 handle configurations (multiset family; quick: the Ed25519 A x1 /
+        // x2 / x3 bases with a single key and the KSK+ZSK A x1 base)
+        let cfg_base = b.name.contains("ED25519") && ((b.name.ends_with("/L1") && b.name.starts_with('A')) || b.name == "A1/ED25519/L2");
+        if thorough || cfg_base {
+            v.push(Block::Warm(WarmBlock::new(b, mset.clone(), if thorough { vec![WarmShape::HP, WarmShape::DP, WarmShape::PHP] } else { vec![WarmShape::HP] }, gen::handle_configs())));
         }
         build.lock().unwrap().push((i as usize, v));
     });
@@ -173,7 +223,7 @@ fn main() {
 
     let mut starts = vec![];
     let mut total = 0u64;
-    let (mut n_flip, mut n_field, mut n_hist) = (0u64, 0u64, 0u64);
+    let (mut n_flip, mut n_field, mut n_hist, mut n_warm) = (0u64, 0u64, 0u64, 0u64);
     for b in &blocks {
         starts.push(total);
         total += b.count();
@@ -181,12 +231,14 @@ fn main() {
             Block::Flip(_) => n_flip += b.count(),
             Block::List(_) => n_field += b.count(),
             Block::History(_) => n_hist += b.count(),
+            Block::Warm(_) => n_warm += b.count(),
         }
     }
     ctx.set("space", json!(total));
     ctx.set("scenarios_bitflip", json!(n_flip));
     ctx.set("scenarios_field_and_clock", json!(n_field));
     ctx.set("scenarios_history", json!(n_hist));
+    ctx.set("scenarios_warm_presentation", json!(n_warm));
     ctx.set("history_depth", json!(depth));
 
     // permute block-local order only through the seed (enumeration order, never the set)
@@ -211,6 +263,10 @@ fn main() {
                 Block::List(v) => &v[off as usize],
                 Block::History(h) => {
                     owned = h.scenario(off);
+                    &owned
+                }
+                Block::Warm(w) => {
+                    owned = w.scenario(off);
                     &owned
                 }
             };
